@@ -447,13 +447,24 @@ def evaluate(res0, tag, projects_path, out_path, mbin, d, stats, open_kf):
                     stray.append(dg)
                 else:
                     impl[gv.gidx][loc] += 1
+            nstray = 0
             for dg in stray:
                 stats["stray"] += 1
-                if dg["code"] == "Unused":
-                    gvs = file_to_g.get(dg["file"])
+                if dg["code"] != "Unused":
+                    stats["other_diagnostics_outside_groups"] += 1
+                    continue
+                nstray += 1
+                if nstray > 2:
+                    continue
+                gvs = file_to_g.get(dg["file"])
+                if gvs is None:
+                    res.violation("an `Unused declaration` diagnostic is reported for a file that belongs to none of the project's own libraries "
+                                  "(third-party / standard library?): %s %d:%d %s" % (dg["file"], dg["l1"], dg["c1"], dg["msg"]),
+                                  {"kind": "input", "case": pj, "step": st["what"], "diag": dg, "replay_cmd": "./check C19 --replay <this file>"})
+                else:
                     res.violation("an `Unused declaration` diagnostic is anchored at a position that is no declaration of the unit (%s %d:%d %s)"
                                   % (os.path.basename(dg["file"]), dg["l1"], dg["c1"], dg["msg"]),
-                                  {"kind": "input", "case": single_group_project(pj, gvs.gidx) if gvs else pj, "step": st["what"], "diag": dg,
+                                  {"kind": "input", "case": single_group_project(pj, gvs.gidx), "step": st["what"], "diag": dg,
                                    "replay_cmd": "./check C19 --replay <this file>"})
             out_a, groups_a = ma[si]
             out_b, groups_b = mb[si]
@@ -463,6 +474,7 @@ def evaluate(res0, tag, projects_path, out_path, mbin, d, stats, open_kf):
                 stats["groups"] += 1
                 if invalid.get(gv.gidx):
                     stats["invalid_groups"] += 1
+                    stats["invalid_code:" + invalid[gv.gidx][0]["code"]] += 1
                     if len(stats["invalid_examples"]) < 5:
                         x = invalid[gv.gidx][0]
                         stats["invalid_examples"].append("%s %d:%d %s %s" % (os.path.basename(x["file"]), x["l1"], x["c1"], x["code"], x["msg"][:80]))
